@@ -271,6 +271,24 @@ class Cas:
                         key = f"<read at line {n.lineno}>"
                         reads.setdefault(key, []).append(n)
                         out.setdefault(n.targets[0].id, []).append((n, key))
+        # a local whose every binding is None or a copy of such a hash local holds that hash (or nothing): `h2 = h if .. else None`
+        # written as statements, a field of a snapshot record read back
+        grew = True
+        while grew:
+            grew = False
+            binds: dict[str, list[ast.Assign]] = {}
+            for n in walk_no_nested(self.fa.fi.node):
+                if isinstance(n, ast.Assign) and len(n.targets) == 1 and isinstance(n.targets[0], ast.Name):
+                    binds.setdefault(n.targets[0].id, []).append(n)
+            for nm, ds in binds.items():
+                if nm in out:
+                    continue
+                srcs = [d for d in ds if not (isinstance(d.value, ast.Constant) and d.value.value is None)]
+                if srcs and all(isinstance(d.value, ast.Name) and d.value.id in out for d in srcs) and len(srcs) + sum(1 for d in ds if isinstance(d.value, ast.Constant) and d.value.value is None) == len(ds):
+                    for d in srcs:
+                        for (_n0, rk) in out[d.value.id]:  # type: ignore[union-attr]
+                            out.setdefault(nm, []).append((d, rk))
+                    grew = True
         return out
 
     def _compare_nodes(self) -> dict[int, dict]:
